@@ -715,6 +715,8 @@ def flatten_tuple_params(trees, unknown, report):
             if nd and i >= len(fnode.args.args) - nd:
                 continue
             cands[(name, i)] = None
+    if os.environ.get("VERIF_DEBUG_FLATTEN"):
+        print("FLATTEN initial cands", sorted(cands), file=sys.stderr)
     if not cands:
         return set()
 
@@ -792,6 +794,8 @@ def flatten_tuple_params(trees, unknown, report):
                         continue
                 drop.append((name, i))
                 break
+        if os.environ.get("VERIF_DEBUG_FLATTEN"):
+            print("FLATTEN cands", sorted(cands), "drop", sorted(set(drop)), file=sys.stderr)
         if not drop:
             break
         for k in set(drop):
@@ -1927,6 +1931,12 @@ def undo(trees, unknown, report):
     for rel in e2:
         canonicalise(trees[rel])
     changed |= e2
+    if isinstance(unknown, set) and not unknown:
+        # no new function, but a known one may have got a new carrier parameter (a record class that was just lowered)
+        b = flatten_tuple_params(trees, unknown, report)
+        for rel in b:
+            canonicalise(trees[rel])
+        changed |= b
     if unknown:
         b = flatten_tuple_params(trees, unknown, report)
         for rel in b:
